@@ -129,7 +129,7 @@ class GhostFun:
     def __init__(self, name, sig):
         args, _, ret = sig.partition("->")
         self.name = name
-        self.arg_sorts = [sort_of(a) for a in args.split()]
+        self.arg_sorts = [sort_of(a) for a in args.split()]      # no argument sorts: a ghost constant
         self.ret_sort = sort_of(ret.strip())
 
 
@@ -142,7 +142,8 @@ class Lemma:
     """A standalone fact over ghost functions.  method: 'auto' or ('induction', var, lo) meaning the statement is
     forall(var, lo, +inf, body(var)) proved by base (var == lo) and step (body(var) => body(var+1), var >= lo)."""
 
-    def __init__(self, name, statement, method="auto", binders=None, uses=(), hyps=(), pats=None):
+    def __init__(self, name, statement, method="auto", binders=None, uses=(), hyps=(), pats=None, hints=()):
+        self.hints = [Clause(h) for h in hints]
         self.name, self.statement, self.method = name, Clause(statement), method
         self.binders = binders or []     # [(name, sortname)] universally quantified around the statement
         self.uses = list(uses)
@@ -163,7 +164,8 @@ class Contract:
     def __init__(self, qualname, params, returns=None, ghost_funs=(), macros=(), axioms=(), lets=None,
                  ghost_vars=None, requires=(), ensures=(), loops=None, hooks=(), yields=(), count=None,
                  raises=None, uses=(), lemmas=(), calls=None, serves=(), pure=False, trusted=False, notes="",
-                 closure=None, self_type=None, modifies=(), effects=None):
+                 closure=None, self_type=None, modifies=(), effects=None, coerce=None,
+                 export_lemmas=True):
         self.qualname = qualname
         self.params = params                      # dict name -> T (in signature order)
         self.returns = returns
@@ -189,6 +191,8 @@ class Contract:
         self.closure = closure or {}              # captured names -> T (for closures) or spec text
         self.modifies = list(modifies)
         self.effects = effects or {}
+        self.coerce = coerce or {}          # program variable -> 'Real' (a variable initialised with an int literal that holds floats)
+        self.export_lemmas = export_lemmas
 
 
 REGISTRY = {}
